@@ -1085,6 +1085,43 @@ def mon_c13_two(spec, run):
 MONITORS["C13two"] = mon_c13_two
 
 
+def second_session(trace):
+    """the part of a trace that belongs to the second connect() on the same connection object, presented like a first session (its threads
+    R2 / S2 renamed to R / S)"""
+    opens = [e["seq"] for e in trace if e["k"] == "open"]
+    if len(opens) < 2:
+        return None
+    cut = opens[1]
+    # the connect call that led to the second open
+    start = max([e["seq"] for e in trace if e["k"] == "call" and e["op"][0] == "reconnect" and e["seq"] < cut], default=cut)
+    out = []
+    for e in trace:
+        if e["seq"] < start:
+            continue
+        if e["th"] in ("R", "S"):
+            continue                      # stragglers of the first session
+        e2 = dict(e)
+        if e2["th"] in ("R2", "S2"):
+            e2["th"] = e2["th"][0]
+        if e2["k"] in ("call", "ret") and e2["op"][0] == "reconnect":
+            e2["op"] = ["connect"]
+        out.append(e2)
+    return out
+
+
+def _second(name):
+    def mon(spec, run):
+        tr = second_session(run.trace)
+        if tr is None:
+            return []
+        return [(k, "second session on the same connection object: " + w) for k, w in MONITORS[name](spec, _SubRun(run, tr))]
+    return mon
+
+
+for _n in ("C01", "C08", "C15", "C16"):
+    MONITORS[_n + "re"] = _second(_n)
+
+
 def _two(name):
     def mon(spec, run):
         return MONITORS[name](spec, _SubRun(run, first_connection_only(run.trace)))
